@@ -14,6 +14,7 @@ repaired code and `C03_model_meets_spec` holds at full strength.  The witness
 stays in corpus/C03/cases.txt as a regression case.
 -/
 import AGH.Lemmas.Access
+import AGH.Gen.C03Hook
 namespace AGH.C03
 open AGH AGH.Bytes
 
@@ -190,6 +191,61 @@ theorem C03_model_meets_spec {al bl : List Entry} {a : Access}
     · cases r.clientID <;> simp
     · simp only [if_true]
       cases r.proto <;> simp [refusal]
+
+/-! ### call order of the real hook (facts regenerated from the source tree) -/
+
+/-- In the current source of `(*Server).HandleBefore` the ClientID is determined
+first, the client check (`IsBlockedClient`) and the blocked-name check
+(`isBlockedHost`) both come before the SERVFAIL for a bad ClientID, before the
+ClientID is cached and before `return nil` (the only way to let a request
+through), and each check is followed by a `preBlockedResponse`; the server is
+registered as dnsproxy's `BeforeRequestHandler`; and dnsproxy's
+`handleDNSRequest` (the version in go.mod) calls the hook before the rate
+limiter, the request handler, `Resolve` and `respond`.  Removing or reordering
+any of these calls breaks this theorem at build time. -/
+theorem C03_hook_call_order :
+    let h := AGH.Gen.C03.hookEvents
+    let p := AGH.Gen.C03.proxyEvents
+    (occursBefore h 6 1 && occursBefore h 1 4 && occursBefore h 1 5 && occursBefore h 1 7 &&
+     occursBefore h 2 4 && occursBefore h 2 5 && occursBefore h 2 7 &&
+     occursBefore h 1 3 && occursBefore ((h.dropWhile (· != 2))) 2 3 &&
+     decide (AGH.Gen.C03.hookRegistrations ≥ 1) &&
+     occursBefore p 1 2 && occursBefore p 1 3 && occursBefore p 1 4 && occursBefore p 1 5) = true := by
+  decide
+
+/-! ### live reconfiguration through `POST /control/access/set` -/
+
+/-- A rejected set (duplicates, an entry on both lists, a malformed entry)
+leaves the access manager exactly as it was. -/
+theorem C03_set_rejected_unchanged (cur : Access) (al bl : List Entry) (hosts : List Bytes)
+    (h : (accessSet cur al bl hosts).2 ≠ none) : (accessSet cur al bl hosts).1 = cur := by
+  unfold accessSet at h ⊢
+  cases hv : validateAccessSet (al.map (·.raw)) (bl.map (·.raw)) hosts with
+  | some e => rfl
+  | none =>
+    simp only [hv] at h ⊢
+    cases hn : newAccessCtx al bl with
+    | error e => rfl
+    | ok a => rw [hn] at h; simp at h
+
+/-- An accepted set installs the manager built from the new lists, so every
+theorem above holds for the new lists from then on: the decision is "excluded
+by the NEW settings", whatever was configured before. -/
+theorem C03_set_accepted (cur : Access) (al bl : List Entry) (hosts : List Bytes)
+    (h : (accessSet cur al bl hosts).2 = none) :
+    newAccessCtx al bl = .ok (accessSet cur al bl hosts).1 ∧
+    ∀ ip, ip.isValid = true → ∀ id,
+      ((accessSet cur al bl hosts).1.isBlockedClient ip id).1 = excluded al bl ip id := by
+  have hk : newAccessCtx al bl = .ok (accessSet cur al bl hosts).1 := by
+    unfold accessSet at h ⊢
+    cases hv : validateAccessSet (al.map (·.raw)) (bl.map (·.raw)) hosts with
+    | some e => simp [hv] at h
+    | none =>
+      simp only [hv] at h ⊢
+      cases hn : newAccessCtx al bl with
+      | error e => rw [hn] at h; simp at h
+      | ok a => rfl
+  exact ⟨hk, fun ip hv id => C03_decision_eq_excluded hk hv id⟩
 
 /-! ### what the code does at the edges of the property (reading notes) -/
 
